@@ -17,6 +17,8 @@ import (
 	"os"
 	"path/filepath"
 	"runtime"
+	"runtime/debug"
+	"runtime/pprof"
 	"sort"
 	"strconv"
 	"strings"
@@ -165,7 +167,7 @@ func fatal(f string, a ...interface{}) {
 // newWorker builds an interpreter with its own heap image and solver.
 func newWorker(id int, sh *Shared, ld *loaded, e *Explorer) *Worker {
 	in := &Interp{sh: sh, prog: ld.prog, globals: map[*ssa.Global]*value{}, initWarn: map[string]int{},
-		funcsRun: map[*ssa.Function]struct{}{}, mapRange: map[string]int{}}
+		funcsRun: map[*ssa.Function]struct{}{}, mapRange: map[string]int{}, infoCache: map[*ssa.Function]*fnInfo{}, methCache: map[methKey]*ssa.Function{}}
 	w := &Worker{id: id, in: in, ex: e}
 	in.worker = w
 	for _, pkg := range ld.prog.AllPackages() {
@@ -194,6 +196,7 @@ func newWorker(id int, sh *Shared, ld *loaded, e *Explorer) *Worker {
 	}
 	in.initMode = false
 	in.funcsRun = map[*ssa.Function]struct{}{}
+	in.infoCache = map[*ssa.Function]*fnInfo{}
 	return w
 }
 
@@ -216,6 +219,10 @@ type tierCfg struct {
 }
 
 func cfgFor(t string) tierCfg {
+	if d := os.Getenv("GOSYM_TIMEOUT_S"); d != "" {
+		n, _ := strconv.Atoi(d)
+		return tierCfg{timeout: time.Duration(n) * time.Second, maxPaths: 600000, budget: 100000000, queryMs: 20000}
+	}
 	if t == "thorough" {
 		return tierCfg{timeout: 25 * time.Minute, maxPaths: 4000000, budget: 400000000, queryMs: 120000}
 	}
@@ -229,6 +236,13 @@ func main() {
 	if n := os.Getenv("GOSYM_WORKERS"); n != "" {
 		nworkers, _ = strconv.Atoi(n)
 	}
+	debug.SetGCPercent(600)
+	debug.SetMemoryLimit(44 << 30)
+	if pf := os.Getenv("GOSYM_PROF"); pf != "" {
+		f, _ := os.Create(pf)
+		pprof.StartCPUProfile(f)
+		defer pprof.StopCPUProfile()
+	}
 	switch os.Args[1] {
 	case "check":
 		if len(os.Args) < 3 {
@@ -240,14 +254,18 @@ func main() {
 		if t := os.Getenv("VERIF_TIER"); t != "" && len(os.Args) <= 3 {
 			tier = t
 		}
-		os.Exit(checkProperty(os.Args[2], ""))
+		rc := checkProperty(os.Args[2], "")
+		pprof.StopCPUProfile()
+		os.Exit(rc)
 	case "run":
 		if len(os.Args) > 3 {
 			tier = os.Args[3]
 		}
 		name := os.Args[2]
 		prop := strings.TrimPrefix(strings.SplitN(name, "_", 2)[0], "Verif")
-		os.Exit(checkProperty(prop, name))
+		rc := checkProperty(prop, name)
+		pprof.StopCPUProfile()
+		os.Exit(rc)
 	case "selftest":
 		os.Exit(selftest())
 	case "replay":
@@ -334,7 +352,7 @@ func checkProperty(prop, only string) int {
 	known := loadKnown()
 	var results []*HarnessResult
 	perH := cfg.timeout / time.Duration(len(names))
-	if perH < 90*time.Second {
+	if perH < 90*time.Second && os.Getenv("GOSYM_TIMEOUT_S") == "" {
 		perH = 90 * time.Second
 	}
 	for _, n := range names {
@@ -386,6 +404,7 @@ func report(prop string, ld *loaded, ws []*Worker, results []*HarnessResult, kno
 	exit := 0
 	var violations []*Failure
 	knownHit := map[string]*Failure{}
+	confirmedPer := map[string]int{}
 	unconfirmed := 0
 	replayed := 0
 	incomplete := false
@@ -434,7 +453,10 @@ func report(prop string, ld *loaded, ws []*Worker, results []*HarnessResult, kno
 				}
 				continue
 			}
-			// a new violation: confirm natively
+			// a new violation: confirm natively (at most 3 per harness)
+			if confirmedPer[r.Harness] >= 3 {
+				continue
+			}
 			rp := filepath.Join(verifDir, "replays", prop, fmt.Sprintf("%s-%d.json", r.Harness, n))
 			writeReplay(rp, f)
 			f.Replay = rp
@@ -443,9 +465,10 @@ func report(prop string, ld *loaded, ws []*Worker, results []*HarnessResult, kno
 			f.Repro = out + " " + detail
 			if out == "fail" || out == "panic" || out == "hang" {
 				violations = append(violations, f)
+				confirmedPer[r.Harness]++
 			} else {
 				unconfirmed++
-				fmt.Fprintf(os.Stderr, "gosym: UNCONFIRMED counterexample for %s (%s): native outcome %s %s — encoder or stub defect\n", r.Harness, f.Msg, out, detail)
+				fmt.Fprintf(os.Stderr, "gosym: UNCONFIRMED counterexample for %s (%s) at %s [%s]: native outcome %s %s — encoder or stub defect\n", r.Harness, f.Msg, f.Where, f.Stack, out, detail)
 			}
 		}
 	}
